@@ -3,7 +3,10 @@
 d=$1; shift
 cd /repo || exit 2
 if [ -n "$(git status --porcelain --untracked-files=no)" ]; then echo "/repo not clean"; exit 2; fi
-git apply "$d/patch.diff" || { echo "patch does not apply"; exit 2; }
+# (patch.head.diff: the same change carried over to a later tree, where patch.diff no longer applies as it is)
+if git apply --check "$d/patch.diff" 2>/dev/null; then git apply "$d/patch.diff"
+elif [ -f "$d/patch.head.diff" ] && git apply --check "$d/patch.head.diff" 2>/dev/null; then git apply "$d/patch.head.diff"
+else echo "patch does not apply"; exit 2; fi
 trap 'git -C /repo checkout -- . ; /verif/setup.sh >/dev/null 2>&1' EXIT
 cd /verif
 for c in "$@"; do
